@@ -83,6 +83,7 @@ fn verify_words(data: &[u8], dir: u8, cap: u8, serial: u32, start: u32) -> Resul
 
 struct CaseCfg {
     caps: Vec<(u32, u32)>, // (client-side limit, server-side limit) per capability
+    rev_caps: Vec<(u32, u32)>, // the same for the reverse direction (clients on B)
     mux_a: MuxConfig,
     mux_b: MuxConfig,
     script_a: Script,
@@ -99,12 +100,133 @@ fn gen_cfg(rng: &mut StdRng) -> CaseCfg {
         MuxConfig { read_frame_size: frame, read_buffer_size: frame * rng.gen_range(1..10), read_frame_count: rng.gen_range(1..20), write_frame_size: [8u64, 100, 1000, 16384, 65535][rng.gen_range(0..5)] }
     };
     let sc = |rng: &mut StdRng| Script { read_cap: [0usize, 1, 3, 100, 5000][rng.gen_range(0..5)], write_cap: [0usize, 1, 3, 100, 5000][rng.gen_range(0..5)], pending_permille: [0, 50, 300][rng.gen_range(0..3)], capacity: [0usize, 10, 1000, 100_000][rng.gen_range(0..4)], random_chunks: rng.gen_bool(0.5) };
-    CaseCfg { caps, mux_a: mc(rng), mux_b: mc(rng), script_a: sc(rng), script_b: sc(rng), clients_per_cap: rng.gen_range(1..6), streams_per_client: rng.gen_range(1..5) }
+    let nrev = rng.gen_range(0..=2);
+    let rev_caps = (0..nrev).map(|_| ([0u32, 1, 2, 3][rng.gen_range(0..4)], [1u32, 2, 2, 5][rng.gen_range(0..4)])).collect();
+    CaseCfg { caps, rev_caps, mux_a: mc(rng), mux_b: mc(rng), script_a: sc(rng), script_b: sc(rng), clients_per_cap: rng.gen_range(1..6), streams_per_client: rng.gen_range(1..5) }
+}
+
+#[allow(clippy::too_many_arguments)]
+async fn server_loop(ctx: &ctx::Ctx, sh: &Shared, q: StreamQueue, cap: u8, slot: usize, lim: i64, limits: (u32, u32), mut r: StdRng) -> Result<(), ()> {
+    let c = cap;
+    loop {
+        let Ok(mut st) = q.open(ctx).await else { return Ok(()) };
+        let now = sh.open_server[slot].fetch_add(1, Ordering::SeqCst) + 1;
+        if now > lim {
+            sh.fail("more-open-streams-than-both-limits-allow", format!("capability {c}: {now} streams accepted concurrently, limits {limits:?}"));
+        }
+        sh.ev(Ev::ServerAccepted { cap: c });
+        // first word identifies the client stream
+        let first = st.read_exact(ctx, 8).await.unwrap_or_default();
+        if first.len() == 8 && first[0] == 1 && first[1] == c {
+            let serial = u32::from_le_bytes([first[2], first[3], first[4], 0]);
+            if r.gen_bool(0.1) {
+                sh.ev(Ev::ServerDroppedEarly { serial });
+            } else {
+                let mut idx = match verify_words(&first, 1, c, serial, 0) {
+                    Ok(i) => i,
+                    Err(e) => {
+                        sh.fail("foreign-or-reordered-data", format!("server of capability {c}, stream {serial}: {e}"));
+                        0
+                    }
+                };
+                let mut total = 8usize;
+                let mut ok = true;
+                loop {
+                    let want = [8usize, 16, 24, 800, 8000][r.gen_range(0..5)];
+                    let chunk = match st.read_exact(ctx, want).await {
+                        Ok(c) => c,
+                        Err(_) => break,
+                    };
+                    total += chunk.len();
+                    match verify_words(&chunk, 1, c, serial, idx) {
+                        Ok(i) => idx = i,
+                        Err(e) => {
+                            ok = false;
+                            sh.fail("foreign-or-reordered-data", format!("server of capability {c}, stream {serial}: {e}"));
+                        }
+                    }
+                    if chunk.len() < want {
+                        break; // end of stream
+                    }
+                    if r.gen_bool(0.2) {
+                        tokio::task::yield_now().await;
+                    }
+                }
+                sh.ev(Ev::ServerEos { serial, bytes: total, ok });
+                let nresp = [0u32, 1, 3, 100, 5000][r.gen_range(0..5)];
+                let resp = payload(2, c, serial, nresp);
+                if st.write_all(ctx, &resp).await.is_ok() {
+                    let _ = st.flush(ctx).await;
+                    sh.ev(Ev::ServerResponded { serial, bytes: resp.len() });
+                }
+            }
+        } else if !first.is_empty() {
+            sh.fail("foreign-or-reordered-data", format!("server of capability {c}: stream starts with {first:?}"));
+        }
+        sh.open_server[slot].fetch_sub(1, Ordering::SeqCst);
+        drop(st);
+    }
+}
+
+#[allow(clippy::too_many_arguments)]
+async fn client_loop(ctx: &ctx::Ctx, sh: &Shared, q: StreamQueue, cap: u8, slot: usize, lim: i64, limits: (u32, u32), streams: usize, mut r: StdRng) -> Result<(), ()> {
+    let c = cap;
+    for _ in 0..streams {
+        let Ok(mut st) = q.open(ctx).await else { return Ok(()) };
+        let now = sh.open_client[slot].fetch_add(1, Ordering::SeqCst) + 1;
+        sh.max_open[slot].fetch_max(now, Ordering::SeqCst);
+        if now > lim {
+            sh.fail("more-open-streams-than-both-limits-allow", format!("capability {c}: {now} streams open concurrently on the client, limits {limits:?}"));
+        }
+        let serial = sh.serial.fetch_add(1, Ordering::SeqCst) as u32;
+        sh.ev(Ev::ClientOpened { cap: c, serial });
+        let nwords = [1u32, 2, 5, 100, 2000, 40_000][r.gen_range(0..6)];
+        let data = payload(1, c, serial, nwords);
+        let mut off = 0;
+        let mut wrote_all = true;
+        while off < data.len() {
+            let n = [8usize, 13, 100, 4096, 70_000][r.gen_range(0..5)].min(data.len() - off);
+            if st.write_all(ctx, &data[off..off + n]).await.is_err() {
+                wrote_all = false;
+                break;
+            }
+            off += n;
+            if r.gen_bool(0.3) {
+                let _ = st.flush(ctx).await;
+            }
+        }
+        if wrote_all {
+            sh.ev(Ev::ClientClosedWrite { serial, bytes: data.len() });
+        }
+        let mut rd = st.close_write();
+        // read the response until end of stream
+        let mut got = vec![];
+        let mut eos = false;
+        loop {
+            let want = [8usize, 64, 4000][r.gen_range(0..3)];
+            match rd.read_exact(ctx, want).await {
+                Ok(chunk) => {
+                    let short = chunk.len() < want;
+                    got.extend(chunk);
+                    if short {
+                        eos = true;
+                        break;
+                    }
+                }
+                Err(_) => break,
+            }
+        }
+        let ok = verify_words(&got, 2, c, serial, 0).map_err(|e| sh.fail("foreign-or-reordered-data", format!("client of capability {c}, stream {serial}: response {e}"))).is_ok();
+        sh.ev(Ev::ClientGotResponse { serial, bytes: got.len(), ok, eos });
+        sh.open_client[slot].fetch_sub(1, Ordering::SeqCst);
+        drop(rd);
+    }
+    Ok(())
 }
 
 fn run_pair(rep: &mut Report, seed: u64, cfg: &CaseCfg, replay: vcommon::Value) {
     let rt = tokio::runtime::Builder::new_current_thread().enable_time().start_paused(true).build().unwrap();
-    let ncaps = cfg.caps.len();
+    let ncaps = cfg.caps.len() + cfg.rev_caps.len();
     let sh = Arc::new(Shared {
         log: Mutex::default(),
         violations: Mutex::default(),
@@ -123,156 +245,52 @@ fn run_pair(rep: &mut Report, seed: u64, cfg: &CaseCfg, replay: vcommon::Value) 
                 qa.insert(c as u64, StreamQueue::new(&root, *la, limiter::Rate::INF));
                 qb.insert(c as u64, StreamQueue::new(&root, *lb, limiter::Rate::INF));
             }
-            let (qa2, qb2) = (qa.clone(), qb.clone());
+            let mut qb_conn = BTreeMap::new(); // B: connect side of the reverse direction
+            let mut qa_acc = BTreeMap::new(); // A: accept side of the reverse direction
+            for (c, (la, lb)) in cfg.rev_caps.iter().enumerate() {
+                qb_conn.insert(100 + c as u64, StreamQueue::new(&root, *la, limiter::Rate::INF));
+                qa_acc.insert(100 + c as u64, StreamQueue::new(&root, *lb, limiter::Rate::INF));
+            }
+            let (qa2, qb2, qb_conn2, qa_acc2) = (qa.clone(), qb.clone(), qb_conn.clone(), qa_acc.clone());
+            let (qa, qb, qb_conn, qa_acc) = (&qa, &qb, &qb_conn, &qa_acc);
             let sh = &sh;
             let r: Result<(), ()> = scope::run!(&root, |ctx, s| async move {
                 s.spawn_bg(async move {
-                    let _ = verif::run_mux(ctx, cfg.mux_a, BTreeMap::new(), qa2, ta).await;
+                    let _ = verif::run_mux(ctx, cfg.mux_a, qa_acc2, qa2, ta).await;
                     Ok(())
                 });
                 s.spawn_bg(async move {
-                    let _ = verif::run_mux(ctx, cfg.mux_b, qb2, BTreeMap::new(), tb).await;
+                    let _ = verif::run_mux(ctx, cfg.mux_b, qb2, qb_conn2, tb).await;
                     Ok(())
                 });
-                // servers: as many acceptors as the server-side limit (+1 to try to exceed it)
-                for (c, (la, lb)) in cfg.caps.iter().enumerate() {
-                    let lim = (*la).min(*lb) as i64;
-                    for k in 0..(*lb + 1) {
-                        let q = qb[&(c as u64)].clone();
-                        let mut r = rng_for(seed, c as u64, 141, k as u64);
-                        s.spawn_bg(async move {
-                            loop {
-                                let Ok(mut st) = q.open(ctx).await else { return Ok(()) };
-                                let now = sh.open_server[c].fetch_add(1, Ordering::SeqCst) + 1;
-                                if now > lim {
-                                    sh.fail("more-open-streams-than-both-limits-allow", format!("capability {c}: {now} streams accepted concurrently, limits {la}/{lb}"));
-                                }
-                                sh.ev(Ev::ServerAccepted { cap: c as u8 });
-                                // first word identifies the client stream
-                                let first = st.read_exact(ctx, 8).await.unwrap_or_default();
-                                if first.len() == 8 && first[0] == 1 && first[1] == c as u8 {
-                                    let serial = u32::from_le_bytes([first[2], first[3], first[4], 0]);
-                                    if r.gen_bool(0.1) {
-                                        sh.ev(Ev::ServerDroppedEarly { serial });
-                                    } else {
-                                        let mut idx = match verify_words(&first, 1, c as u8, serial, 0) {
-                                            Ok(i) => i,
-                                            Err(e) => {
-                                                sh.fail("foreign-or-reordered-data", format!("server of capability {c}, stream {serial}: {e}"));
-                                                0
-                                            }
-                                        };
-                                        let mut total = 8usize;
-                                        let mut ok = true;
-                                        loop {
-                                            let want = [8usize, 16, 24, 800, 8000][r.gen_range(0..5)];
-                                            let chunk = match st.read_exact(ctx, want).await {
-                                                Ok(c) => c,
-                                                Err(_) => break,
-                                            };
-                                            total += chunk.len();
-                                            match verify_words(&chunk, 1, c as u8, serial, idx) {
-                                                Ok(i) => idx = i,
-                                                Err(e) => {
-                                                    ok = false;
-                                                    sh.fail("foreign-or-reordered-data", format!("server of capability {c}, stream {serial}: {e}"));
-                                                }
-                                            }
-                                            if chunk.len() < want {
-                                                break; // end of stream
-                                            }
-                                            if r.gen_bool(0.2) {
-                                                tokio::task::yield_now().await;
-                                            }
-                                        }
-                                        sh.ev(Ev::ServerEos { serial, bytes: total, ok });
-                                        let nresp = [0u32, 1, 3, 100, 5000][r.gen_range(0..5)];
-                                        let resp = payload(2, c as u8, serial, nresp);
-                                        if st.write_all(ctx, &resp).await.is_ok() {
-                                            let _ = st.flush(ctx).await;
-                                            sh.ev(Ev::ServerResponded { serial, bytes: resp.len() });
-                                        }
-                                    }
-                                } else if !first.is_empty() {
-                                    sh.fail("foreign-or-reordered-data", format!("server of capability {c}: stream starts with {first:?}"));
-                                }
-                                sh.open_server[c].fetch_sub(1, Ordering::SeqCst);
-                                drop(st);
-                            }
-                        });
-                    }
-                }
-                // clients
+                // direction 1: clients on A (capabilities 0..), servers on B; direction 2: clients on B (capabilities 100..), servers on A
                 let mut handles = vec![];
-                for (c, (la, lb)) in cfg.caps.iter().enumerate() {
-                    let lim = (*la).min(*lb) as i64;
-                    if lim == 0 {
-                        // nothing may ever open
-                        let q = qa[&(c as u64)].clone();
-                        s.spawn_bg(async move {
-                            if q.open(ctx).await.is_ok() {
-                                sh.fail("stream-opened-with-zero-limit", format!("capability {c} has limits {la}/{lb} but a stream opened"));
-                            }
-                            Ok(())
-                        });
-                        continue;
-                    }
-                    for k in 0..cfg.clients_per_cap {
-                        let q = qa[&(c as u64)].clone();
-                        let mut r = rng_for(seed, c as u64, 142, k as u64);
-                        handles.push(s.spawn(async move {
-                            for _ in 0..cfg.streams_per_client {
-                                let Ok(mut st) = q.open(ctx).await else { return Ok(()) };
-                                let now = sh.open_client[c].fetch_add(1, Ordering::SeqCst) + 1;
-                                sh.max_open[c].fetch_max(now, Ordering::SeqCst);
-                                if now > lim {
-                                    sh.fail("more-open-streams-than-both-limits-allow", format!("capability {c}: {now} streams open concurrently on the client, limits {la}/{lb}"));
+                for (dir, qs_client, qs_server, caps) in [(0u64, &qa, &qb, &cfg.caps), (100u64, &qb_conn, &qa_acc, &cfg.rev_caps)] {
+                    for (c, (la, lb)) in caps.iter().enumerate() {
+                        let capid = dir + c as u64;
+                        let slot = if dir == 0 { c } else { cfg.caps.len() + c };
+                        let lim = (*la).min(*lb) as i64;
+                        for k in 0..(*lb + 1) {
+                            let q = qs_server[&capid].clone();
+                            let r = rng_for(seed, capid, 141, k as u64);
+                            s.spawn_bg(server_loop(ctx, sh, q, capid as u8, slot, lim, (*la, *lb), r));
+                        }
+                        if lim == 0 {
+                            let q = qs_client[&capid].clone();
+                            let (la, lb) = (*la, *lb);
+                            s.spawn_bg(async move {
+                                if q.open(ctx).await.is_ok() {
+                                    sh.fail("stream-opened-with-zero-limit", format!("capability {capid} has limits {la}/{lb} but a stream opened"));
                                 }
-                                let serial = sh.serial.fetch_add(1, Ordering::SeqCst) as u32;
-                                sh.ev(Ev::ClientOpened { cap: c as u8, serial });
-                                let nwords = [1u32, 2, 5, 100, 2000, 40_000][r.gen_range(0..6)];
-                                let data = payload(1, c as u8, serial, nwords);
-                                let mut off = 0;
-                                let mut wrote_all = true;
-                                while off < data.len() {
-                                    let n = [8usize, 13, 100, 4096, 70_000][r.gen_range(0..5)].min(data.len() - off);
-                                    if st.write_all(ctx, &data[off..off + n]).await.is_err() {
-                                        wrote_all = false;
-                                        break;
-                                    }
-                                    off += n;
-                                    if r.gen_bool(0.3) {
-                                        let _ = st.flush(ctx).await;
-                                    }
-                                }
-                                if wrote_all {
-                                    sh.ev(Ev::ClientClosedWrite { serial, bytes: data.len() });
-                                }
-                                let mut rd = st.close_write();
-                                // read the response until end of stream
-                                let mut got = vec![];
-                                let mut eos = false;
-                                loop {
-                                    let want = [8usize, 64, 4000][r.gen_range(0..3)];
-                                    match rd.read_exact(ctx, want).await {
-                                        Ok(chunk) => {
-                                            let short = chunk.len() < want;
-                                            got.extend(chunk);
-                                            if short {
-                                                eos = true;
-                                                break;
-                                            }
-                                        }
-                                        Err(_) => break,
-                                    }
-                                }
-                                let ok = verify_words(&got, 2, c as u8, serial, 0).map_err(|e| sh.fail("foreign-or-reordered-data", format!("client of capability {c}, stream {serial}: response {e}"))).is_ok();
-                                sh.ev(Ev::ClientGotResponse { serial, bytes: got.len(), ok, eos });
-                                sh.open_client[c].fetch_sub(1, Ordering::SeqCst);
-                                drop(rd);
-                            }
-                            Ok(())
-                        }));
+                                Ok(())
+                            });
+                            continue;
+                        }
+                        for k in 0..cfg.clients_per_cap {
+                            let q = qs_client[&capid].clone();
+                            let r = rng_for(seed, capid, 142, k as u64);
+                            handles.push(s.spawn(client_loop(ctx, sh, q, capid as u8, slot, lim, (*la, *lb), cfg.streams_per_client, r)));
+                        }
                     }
                 }
                 for h in handles {
@@ -331,13 +349,15 @@ fn run_pair(rep: &mut Report, seed: u64, cfg: &CaseCfg, replay: vcommon::Value) 
         rep.violation(format!("{sig}||pair"), d.clone(), replay.clone());
     }
     rep.add("transient_streams_completed", streams);
+    let all_caps: Vec<(u32, u32)> = cfg.caps.iter().chain(cfg.rev_caps.iter()).copied().collect();
+    if !cfg.rev_caps.is_empty() { rep.count("connections_with_streams_in_both_directions"); }
     for c in 0..ncaps {
         rep.max("max_concurrently_open_streams", sh.max_open[c].load(Ordering::SeqCst) as u64);
-        if cfg.caps[c].0.min(cfg.caps[c].1) > 0 && sh.max_open[c].load(Ordering::SeqCst) as u32 == cfg.caps[c].0.min(cfg.caps[c].1) {
+        if all_caps[c].0.min(all_caps[c].1) > 0 && sh.max_open[c].load(Ordering::SeqCst) as u32 == all_caps[c].0.min(all_caps[c].1) {
             rep.count("capabilities_that_reached_their_stream_limit");
         }
-        if cfg.caps[c].0 != cfg.caps[c].1 { rep.count("capabilities_with_mismatched_limits"); }
-        if cfg.caps[c].0.min(cfg.caps[c].1) == 0 { rep.count("capabilities_with_zero_limit"); }
+        if all_caps[c].0 != all_caps[c].1 { rep.count("capabilities_with_mismatched_limits"); }
+        if all_caps[c].0.min(all_caps[c].1) == 0 { rep.count("capabilities_with_zero_limit"); }
     }
     if rep.samples.len() < rep.max_samples {
         rep.sample(json!({"limits(client,server)": cfg.caps, "mux_a": format!("{:?}", cfg.mux_a), "mux_b": format!("{:?}", cfg.mux_b), "streams_completed": streams, "events": log.len()}));
